@@ -220,14 +220,24 @@ def case_audit(tid, N, crossings_by_contest, rng):
             contests[name] = con
         audit = compare.mk_audit(style, N)
         audit.error_rate_1, audit.error_rate_2, audit.reps = 0.25, 0, None
-        cvrs = [CVR(id=f"c{j}", votes={n_: {"W": 1} for n_ in names}, sample_num=j + 1, sampled=False) for j in range(N)]
+        # the first two cards list every contest (they are the cards seen so far when data are used); the others list any
+        # non-empty subset; the last card may be a phantom
+        listing = [list(names), list(names)] + [[n_ for n_ in names if rng.random() < 0.7] or [names[0]] for _ in range(N - 2)]
+        phantom_last = rng.random() < 0.4
+        cvrs = [CVR(id=f"c{j}", votes={n_: {"W": 1} for n_ in listing[j]}, sample_num=j + 1, sampled=(with_data and style and j < 2),
+                    phantom=(phantom_last and j == N - 1)) for j in range(N)]
         kw = {}
         if with_data:       # two cards seen so far, no discrepancy
             for n_ in names:
                 contests[n_].sample_threshold = 2
             kw = dict(mvr_sample=[CVR(id=f"c{j}", votes={n_: {"W": 1} for n_ in names}) for j in range(2)], cvr_sample=cvrs[:2])
         total = audit.find_sample_size(contests, cvrs=cvrs, **kw)
-        return {"sizes": [int(contests[n_].sample_size) for n_ in names], "total": int(total)}
+        rec["listing"] = [[names.index(n_) + 1 for n_ in ls] for ls in listing]
+        rec["sampled"] = [bool(c.sampled) for c in cvrs]
+        rec["phantom"] = [bool(c.phantom) for c in cvrs]
+        rec["cards"] = [int(contests[n_].cards) for n_ in names]
+        return {"sizes": [int(contests[n_].sample_size) for n_ in names], "total": int(total),
+                "p": [rs(c.p) if c.p is not None else "unset" for c in cvrs]}
     return guard(rec, go)
 
 
@@ -301,7 +311,10 @@ def run(pid, tier):
         if r["kind"] == "contest" and r.get("style"):
             site += "/style"
         for cl in clauses:
-            rep.violation(site, cl, f"{r['kind']} record {tid}: clause {cl}", r)
+            if cl.startswith("ext:"):      # beyond the listed properties (per-card sampling probabilities): observation only
+                rep.observation(site, cl, f"{r['kind']} record {tid}: clause {cl}")
+            else:
+                rep.violation(site, cl, f"{r['kind']} record {tid}: clause {cl}", r)
     for r in recs:
         rep.clause_count(r["kind"], r["tid"] not in rejects)
     seen_kinds = set()
